@@ -1,112 +1,76 @@
-"""The individual generators; each returns (file name, Coq text).
-Run with the repository on sys.path; imports the package under test."""
-import ast
-import inspect
+"""Discovery of the fact generators.  Every tr/facts_<name>.py provides
+  NAME            short name (also the regex group name)
+  regexes()       dict  regex name -> (pattern, flags) or compiled pattern   (may be empty)
+  generate()      list of (file name under coq/Generated, Coq text)
+A plugin that raises is reported in build/facts_status.json and its files are
+removed, so the Coq cone of every property that needs it fails to build
+(fail-closed); other properties are not affected."""
+import glob
+import importlib
 import os
-import re
+import traceback
 
-import rx2coq
+import factlib
 
-HEADER = "(* GENERATED by tr/gen_facts.py from the repository working tree. Do not edit. *)\n"
-
-
-def comment_safe(text):
-    return text.replace('"', "<dq>").replace("(*", "(_*").replace("*)", "*_)")
+HERE = os.path.dirname(os.path.abspath(__file__))
 
 
-def inline_patterns(func):
-    """(pattern, flags) of every re.<f>(<constant>, ...) call inside func, in source order"""
-    src = inspect.getsource(func)
-    import textwrap
-    tree = ast.parse(textwrap.dedent(src))
-    out = []
-    for node in ast.walk(tree):
-        if (isinstance(node, ast.Call) and isinstance(node.func, ast.Attribute)
-                and isinstance(node.func.value, ast.Name) and node.func.value.id == "re"
-                and node.args):
-            a0 = node.args[0]
-            if isinstance(a0, ast.Constant) and isinstance(a0.value, str):
-                flags = 0
-                if node.func.attr == "compile" and len(node.args) > 1:
-                    flags = eval(compile(ast.Expression(node.args[1]), "<flags>", "eval"), {"re": re})
-                out.append((node.lineno, node.func.attr, a0.value, flags))
-    out.sort()
-    return [(p, f) for _, _, p, f in out]
+def plugins():
+    names = sorted(os.path.basename(p)[:-3] for p in glob.glob(os.path.join(HERE, "facts_*.py")))
+    # tables first, parser second: stable regex indices for the early groups
+    names.sort(key=lambda n: (n != "facts_tables", n != "facts_parser", n))
+    return names
 
 
-def registry():
-    """name -> (pattern text, flags).  Everything the models refer to."""
-    from compare_locales import parser
-    from compare_locales.parser import base, properties, dtd, ini, defines, po
+_cache = {}
+
+
+def load(name):
+    if name not in _cache:
+        _cache[name] = importlib.import_module(name)
+    return _cache[name]
+
+
+def registry_of(plugin):
+    mod = load(plugin)
+    return {k: factlib.norm(v) for k, v in mod.regexes().items()}
+
+
+def registry(groups=None):
+    """regex name -> (pattern, flags) over all plugins that load (in index order of Generated.all_regexes)"""
     R = {}
-
-    def add(name, obj):
-        if isinstance(obj, tuple):
-            R[name] = obj
-        else:
-            R[name] = (obj.pattern, obj.flags)
-
-    add("ws_base", base.Parser.reWhitespace)
-    (nl,) = inline_patterns(base.Parser.Context.linecol)
-    add("nl_linecol", nl)
-    add("re_br", base.Entry.re_br)
-    add("re_sgml", base.Entry.re_sgml)
-    pp = properties.PropertiesParser()
-    add("props_key", pp.reKey)
-    add("props_comment", pp.reComment)
-    add("props_ws", pp.reWhitespace)
-    add("props_escaped_end", pp._escapedEnd)
-    add("props_trailing_ws", pp._trailingWS)
-    add("props_escape", properties.PropertiesEntityMixin.escape)
-    dp = dtd.DTDParser()
-    add("dtd_key", dp.reKey)
-    add("dtd_header", dp.reHeader)
-    add("dtd_comment", dp.reComment)
-    add("dtd_pe", dp.rePE)
-    add("dtd_ws", dp.reWhitespace)
-    ip = ini.IniParser()
-    add("ini_comment", ip.reComment)
-    add("ini_section", ip.reSection)
-    add("ini_key", ip.reKey)
-    add("ini_ws", ip.reWhitespace)
-    fp = defines.DefinesParser()
-    add("inc_ws", fp.reWhitespace)
-    add("inc_comment", fp.reComment)
-    add("inc_key", fp.reKey)
-    add("inc_pi", fp.rePI)
-    op = po.PoParser()
-    add("po_key", op.reKey)
-    add("po_value", op.reValue)
-    add("po_comment", op.reComment)
-    add("po_listitem", op.reListItem)
-    add("po_ws", op.reWhitespace)
+    for p in plugins():
+        try:
+            regs = registry_of(p)
+        except Exception:  # noqa
+            continue
+        if groups is None or load(p).NAME in groups:
+            R.update(regs)
     return R
 
 
-def gen_tables():
-    lines = [HEADER, "From Coq Require Import NArith List.", "Import ListNotations.", ""]
-    for cat in ("word", "digit", "space"):
-        rs = rx2coq.category_ranges(cat)
-        body = ";\n  ".join("; ".join(f"({a}, {b})" for a, b in rs[i:i + 6])
-                            for i in range(0, len(rs), 6))
-        lines.append(f"Definition {cat}_ranges : list (N * N) := [\n  {body}]%N.\n")
-    return "Tables.v", "\n".join(lines)
+def registry_parser():
+    return registry_of("facts_parser")
 
 
-def gen_regexes():
-    R = registry()
-    lines = [HEADER, "From Coq Require Import NArith List.",
-             "From CL Require Import Regex.Rx Generated.Tables.", "Import ListNotations.", ""]
-    names = []
-    for name, (pat, flags) in R.items():
-        ast_, groups = rx2coq.parse(pat, flags)
-        lines.append(f"(* {comment_safe(repr(pat))} flags={int(flags)} groups={groups} *)")
-        lines.append(f"Definition rx_{name} : rx :=\n  {rx2coq.to_coq(ast_)}.\n")
-        names.append(name)
-    lines.append("Definition all_regexes : list rx := [" +
-                 "; ".join("rx_" + n for n in names) + "].\n")
-    return "Regexes.v", "\n".join(lines)
-
-
-def generate():
-    return [gen_tables(), gen_regexes()]
+def generate_all():
+    """-> (files: list of (name, text), status: dict plugin -> 'ok' | traceback)"""
+    files, status, groups = [], {}, []
+    for p in plugins():
+        try:
+            mod = load(p)
+            out = list(mod.generate())
+            regs = registry_of(p)
+            if regs:
+                out.append((f"Rx{mod.NAME.capitalize()}.v", factlib.coq_regex_file(mod.NAME, regs)))
+                groups.append(mod.NAME)
+            files.extend(out)
+            status[mod.NAME] = "ok"
+        except Exception:  # noqa
+            status[p.replace("facts_", "")] = traceback.format_exc()[-1500:]
+    lines = [factlib.HEADER, "From Coq Require Import List.", "From CL Require Export Regex.Rx " +
+             " ".join(f"Generated.Rx{g.capitalize()}" for g in groups) + ".", "",
+             "Definition all_regexes : list rx := " +
+             (" ++ ".join(f"{g}_regexes" for g in groups) or "nil") + ".", ""]
+    files.append(("Regexes.v", "\n".join(lines)))
+    return files, status
